@@ -94,6 +94,7 @@ type Store struct {
 	CtxCancel           int // context tag that is "cancelled": every call with it fails
 	OnExec              func(text string, args []driver.Value) Result
 	OnExecCtx           func(ctx int, text string, args []driver.Value) Result // takes precedence over OnExec
+	OnExecE             func(text string, args []driver.Value) (Result, error) // takes precedence over both; may fail the statement
 	OnQuery             func(text string, args []driver.Value) RowSet
 	NoSavepoint         bool
 	Before              func() // called before every BEGIN/EXEC/QUERY/COMMIT boundary call, outside the driver lock (C07 pause point)
@@ -230,7 +231,14 @@ func (s *Store) Exec(tx *txState, ctx int, text string, args []driver.Value) (Re
 		return Result{}, nil
 	}
 	res := Result{Affected: 1}
-	if s.OnExecCtx != nil {
+	if s.OnExecE != nil {
+		r, err := s.OnExecE(text, args)
+		if err != nil {
+			s.Log = append(s.Log, Event{Kind: "EXEC", Text: text, Args: args, Ctx: ctx, Tx: txid, Fail: true})
+			return Result{}, err
+		}
+		res = r
+	} else if s.OnExecCtx != nil {
 		res = s.OnExecCtx(ctx, text, args)
 	} else if s.OnExec != nil {
 		res = s.OnExec(text, args)
